@@ -59,7 +59,7 @@ func literalsOf(s, t string) []string {
 }
 
 func checkC11(c *Check) {
-	c.Explanation = "Decided over the Kubernetes builder/client package: (R1) every call of a namespaced typed-client accessor receives the lease namespace lidNS(<lease id>) (directly, through a local, or through the builder's ns() which returns it); the two frozen exceptions are the read-only all-namespaces pod scan and the provider's own CRD namespace whose object name is lidNS; cluster-scoped namespace calls use lidNS as the name; (R2) pod security: Privileged, AllowPrivilegeEscalation and AutomountServiceAccountToken point to a local whose only value is false, no host namespace / service account / volume / capability field is ever set, exactly one container per pod; (R3) limits come from the leased cpu/memory/storage values, requests from the commit-level helper applied to the same values, nothing else writes those maps, and the helper returns anything but its input only when the commit factor is above 1; (R4) the namespace is lower(base32hex-nopad(sha224(lease id string))) and the lease id string covers all five id fields; (R5) network policy shape: default policy selects all pods with both policy types, ingress peers are only the lease namespace or the ingress controller, public egress excepts the three private ranges and the only other IP block rule is restricted to udp/53, per-service policies open only ports appended under global-and-not-ingress, with a per-service port list, selecting the service's pods; all policies live in the lease namespace; (R6) every generated object carries the lease-namespace label; (R7) every typed-client Create/Update in the apply functions is handed the builder's create() result or its update(existing) result, the latter only if that update() rewrites the Spec; (R8) the error of every such write can reach the apply function's own error result."
+	c.Explanation = "Decided over the Kubernetes builder/client package: (R1) every call of a namespaced typed-client accessor receives the lease namespace lidNS(<lease id>) (directly, through a local, or through the builder's ns() which returns it); the two frozen exceptions are the read-only all-namespaces pod scan and the provider's own CRD namespace whose object name is lidNS; cluster-scoped namespace calls use lidNS as the name; (R2) pod security: Privileged, AllowPrivilegeEscalation and AutomountServiceAccountToken point to a local whose only value is false, no host namespace / service account / volume / capability field is ever set, exactly one container per pod; (R3) limits come from the leased cpu/memory/storage values, requests from the commit-level helper applied to the same values, nothing else writes those maps, and the helper returns anything but its input only when the commit factor is above 1; (R4) the namespace is lower(base32hex-nopad(sha224(lease id string))) and the lease id string covers all five id fields; (R5) network policy shape: default policy selects all pods with both policy types, ingress peers are only the lease namespace or the ingress controller, public egress excepts the three private ranges and the only other IP block rule is restricted to udp/53, per-service policies open only ports appended under global-and-not-ingress, with a per-service port list, selecting the service's pods; all policies live in the lease namespace; (R6) every generated object carries the lease-namespace label; (R7) every typed-client Create/Update in the apply functions is handed the builder's create() result or its update(existing) result, the latter only if that update() rewrites the Spec; (R8) the error of every such write can reach the apply function's own error result. Where the namespace length can be bounded it is at most 63."
 	c.NotDecided = "requests <= limits as arithmetic inside the helper; injectivity of the namespace beyond hash collisions; Kubernetes' own enforcement"
 	l := c.L
 	fns := l.pkgFuncs(kubePkg)
@@ -843,6 +843,20 @@ func (c *Check) netPol(np *ssa.Function) {
 			ok = false
 		}
 	}
+	if outer == nil && len(roots) > 0 && isNewFunc(app.Parent()) {
+		// the per-service body was moved into a new helper: the list is allocated once per call of the helper
+		// (outside the helper's own loop) and the helper is called from inside the per-service loop
+		ok = true
+		for _, r := range roots {
+			if r.Parent() != app.Parent() || loopHeaderOf(r.Block()) != nil {
+				ok = false
+			}
+		}
+		site := transparentSite(app.Parent())
+		if site == nil || loopHeaderOf(site.Block()) == nil {
+			ok = false
+		}
+	}
 	c.Ob("R5", "the opened-port list starts empty for every service", app.Pos(), ok, "the port list is allocated outside the per-service loop: ports of earlier services leak into later services' policies")
 }
 
@@ -923,22 +937,77 @@ func (c *Check) leaseNamespaceRule(rule string) {
 				hashed = Sym(st.Val)
 			}
 		})
-		ok := strings.HasPrefix(s, "strings.ToLower(base32.Encoding.EncodeToString(base32.Encoding.WithPadding(*g:base32.HexEncoding, -1), &local:sha[:]))") && hashed == "sha256.Sum224(conv:[]byte(types.LeaseID.String(p:lid)))"
-		c.Ob(rule, "lease namespace = lower(base32hex-nopad(sha224(lease id)))", ln.Pos(), ok, short(s)+" over "+hashed)
-	}
-	for _, spec := range [][3]string{{"x/market/types", "LeaseID", "BidID("}, {"x/market/types", "BidID", "OrderID(|Provider"}, {"x/market/types", "OrderID", "GroupID(|OSeq"}, {"x/deployment/types", "GroupID", "DeploymentID(|GSeq"}, {"x/deployment/types", "DeploymentID", "Owner|DSeq"}} {
-		f := l.Func(spec[0], spec[1], "String")
-		s := ""
-		for _, r := range successReturns(f) {
-			s = Sym(r.Results[0])
-		}
-		ok := true
-		for _, part := range strings.Split(spec[2], "|") {
-			if !strings.Contains(s, part) {
-				ok = false
+		exact := strings.HasPrefix(s, "strings.ToLower(base32.Encoding.EncodeToString(base32.Encoding.WithPadding(*g:base32.HexEncoding, -1), &local:sha[:]))") && hashed == "sha256.Sum224(conv:[]byte(types.LeaseID.String(p:lid)))"
+		if exact {
+			c.Ob(rule, "lease namespace = lower(base32hex-nopad(sha224(lease id)))", ln.Pos(), true, "")
+		} else {
+			// another assembly of the same thing (streaming hasher, Encode into a buffer, helpers): what must hold is
+			// that the text fed to the hash is the full lease id and that the digest is not cut short; the encoding
+			// chain between digest and result is then not judged
+			var inputs []ssa.Value
+			truncated := false
+			eachInstrDeep(ln, func(i ssa.Instruction) {
+				switch x := i.(type) {
+				case *ssa.Slice:
+					if x.Low != nil || x.High != nil {
+						truncated = true
+					}
+				case *ssa.Call:
+					if g := x.Call.StaticCallee(); g != nil && strings.HasPrefix(fnPkgPath(g), "crypto/") && len(x.Call.Args) == 1 {
+						if _, isSl := x.Call.Args[0].Type().Underlying().(*types.Slice); isSl {
+							inputs = append(inputs, x.Call.Args[0])
+						}
+					}
+					if x.Call.IsInvoke() && x.Call.Method.Name() == "Write" && strings.HasSuffix(x.Call.Value.Type().String(), "hash.Hash") && len(x.Call.Args) == 1 {
+						inputs = append(inputs, x.Call.Args[0])
+					}
+				}
+			})
+			// a Kubernetes namespace is a DNS label: at most 63 characters. Where the length of the result can be bounded
+			// from its construction (constants, decimal numbers, encodings of fixed-size digests) it must fit.
+			tooLong := 0
+			for _, r := range successReturns(ln) {
+				if n := maxStringLen(r.Results[0], 0); n > 63 {
+					tooLong = n
+				}
+			}
+			switch {
+			case tooLong > 0:
+				c.Ob(rule, "lease namespace fits a DNS label (63 characters)", ln.Pos(), false, "lidNS can return "+itoa(tooLong)+" characters: Kubernetes refuses the namespace (and every label and policy that carries it) for such a lease")
+			case len(inputs) == 0:
+				c.Ob(rule, "lease namespace is derived from a hash of the lease id", ln.Pos(), false, "lidNS feeds nothing to a hash: "+short(s))
+			case truncated:
+				c.Ob(rule, "the digest of the lease id is used whole", ln.Pos(), false, "lidNS cuts a slice short: part of the digest (or of the id text) is dropped and distinct leases can share a namespace")
+			default:
+				bad, undec := "", false
+				for _, in := range inputs {
+					tpl, ok := canonExpand(ln, stripConv(in), 0)
+					if !ok {
+						undec = true
+					} else if tpl != "<Owner>/<DSeq>/<GSeq>/<OSeq>/<Provider>" {
+						bad = tpl
+					}
+				}
+				if bad != "" {
+					c.Ob(rule, "lease namespace = hash of the full lease id", ln.Pos(), false, "the text hashed is "+bad+": leases that differ in a field left out share one namespace")
+				} else if undec || len(inputs) != 1 {
+					c.Info(rule, "lidNS: hashed text not recognised, not decided", ln.Pos(), short(s)+" over "+hashed)
+				} else {
+					c.Info(rule, "lidNS: hashes the full lease id; encoding chain not recognised, not decided", ln.Pos(), short(s))
+				}
 			}
 		}
-		c.Ob(rule, spec[1]+".String() covers "+spec[2], f.Pos(), ok, short(s))
+	}
+	// the text that is hashed names every field of the lease id, each once, in a fixed order: read as a template from
+	// however the String() methods assemble it (Sprintf, concatenation, the String() of a projection)
+	{
+		f := l.Func("x/market/types", "LeaseID", "String")
+		tpl, ok := canonString(f, 0)
+		if !ok {
+			c.Info(rule, "LeaseID.String(): form not recognised, field coverage not decided", f.Pos(), "")
+		} else {
+			c.Ob(rule, "LeaseID.String() names owner, dseq, gseq, oseq and provider", f.Pos(), tpl == "<Owner>/<DSeq>/<GSeq>/<OSeq>/<Provider>", "the lease id is rendered as "+tpl+": leases that differ in a field left out (or merged without a separator) share one namespace")
+		}
 	}
 
 }
@@ -967,4 +1036,77 @@ func (c *Check) exactGroupNames(rule string) {
 		}
 	}
 	c.Ob(rule, "no case-insensitive comparison of group names on the provider side", l.Func("provider/event", "ManifestReceived", "ManifestGroup").Pos(), n == 0, "")
+}
+
+// maxStringLen: an upper bound of the length of the string v, or -1 when its construction is not understood.
+func maxStringLen(v ssa.Value, d int) int {
+	if d > 10 {
+		return -1
+	}
+	switch x := v.(type) {
+	case *ssa.Const:
+		if s, ok := strConst(x); ok {
+			return len(s)
+		}
+	case *ssa.BinOp:
+		if x.Op == token.ADD {
+			a, b := maxStringLen(x.X, d+1), maxStringLen(x.Y, d+1)
+			if a >= 0 && b >= 0 {
+				return a + b
+			}
+		}
+	case *ssa.Phi:
+		m := 0
+		for _, e := range x.Edges {
+			n := maxStringLen(e, d+1)
+			if n < 0 {
+				return -1
+			}
+			if n > m {
+				m = n
+			}
+		}
+		return m
+	case *ssa.UnOp:
+		if al, ok := x.X.(*ssa.Alloc); ok {
+			if sv := singleStore(al); sv != nil {
+				return maxStringLen(sv, d+1)
+			}
+		}
+	case *ssa.Call:
+		full := calleeFull(x)
+		a := x.Call.Args
+		switch {
+		case (full == "strings.ToLower" || full == "strings.ToUpper" || full == "strings.TrimSpace") && len(a) == 1:
+			return maxStringLen(a[0], d+1)
+		case full == "strconv.FormatUint" || full == "strconv.FormatInt" || full == "strconv.Itoa":
+			if len(a) == 2 {
+				if k, ok := constInt(a[1]); !ok || k != 10 {
+					return 64 // a smaller base needs up to 64 digits
+				}
+			}
+			return 20
+		case strings.HasSuffix(full, "Encoding).EncodeToString") || full == "encoding/hex.EncodeToString":
+			src := a[len(a)-1]
+			if sl, ok := src.(*ssa.Slice); ok && sl.Low == nil && sl.High == nil {
+				if al, ok := sl.X.(*ssa.Alloc); ok {
+					if at, ok := al.Type().(*types.Pointer).Elem().Underlying().(*types.Array); ok {
+						n := int(at.Len())
+						switch {
+						case strings.Contains(full, "base32"):
+							if rs := Sym(a[0]); strings.Contains(rs, "WithPadding(") && strings.HasSuffix(strings.TrimRight(rs, ")"), "-1") {
+								return (n*8 + 4) / 5 // no padding
+							}
+							return (n + 4) / 5 * 8
+						case strings.Contains(full, "base64"):
+							return (n + 2) / 3 * 4
+						default:
+							return 2 * n
+						}
+					}
+				}
+			}
+		}
+	}
+	return -1
 }
